@@ -10,6 +10,7 @@ import (
 	"os/exec"
 	"runtime/debug"
 	"runtime/pprof"
+	"strings"
 	"sync"
 	"time"
 
@@ -101,6 +102,7 @@ func main() {
 		jobByID[j.ID] = j
 	}
 	tasks := 0
+	notes := map[string]string{}
 	var firstErr error
 	var wg sync.WaitGroup
 	expired := false
@@ -214,13 +216,43 @@ func main() {
 						return
 					}
 					mu.Lock()
-					if m.Spawn != nil {
+					if m.Spawn != nil && task.Gen == jobByID[task.ID].Gen {
 						for _, pre := range m.Spawn {
 							t := jobByID[task.ID]
 							t.RootPrefix = pre
 							queue = append(queue, t)
 						}
 						cond.Broadcast()
+					}
+					if m.Result != nil && m.Result.Gen != jobByID[task.ID].Gen {
+						// a result of a superseded generation of this job (it is being re-run with set-up per path)
+						active--
+						done = true
+						cond.Broadcast()
+						mu.Unlock()
+						continue
+					}
+					if m.Result != nil && strings.HasPrefix(m.Result.EngineError, "replay divergence") && !jobByID[task.ID].SetupEachPath && jobByID[task.ID].Setup != "" {
+						// the body changed what set-up built: start the job over with set-up repeated on every path
+						j := jobByID[task.ID]
+						j.SetupEachPath = true
+						j.Gen++
+						j.RootPrefix = nil
+						jobByID[task.ID] = j
+						acc[task.ID] = &symx.JobResult{}
+						var keepq []symx.Job
+						for _, q := range queue {
+							if q.ID != task.ID {
+								keepq = append(keepq, q)
+							}
+						}
+						queue = append(keepq, j)
+						notes[task.ID] = "set-up repeated per path after: " + m.Result.EngineError
+						active--
+						done = true
+						cond.Broadcast()
+						mu.Unlock()
+						continue
 					}
 					if m.Result != nil {
 						keep := task.KeepWitnesses
@@ -247,6 +279,9 @@ func main() {
 	}
 	var all outFile
 	for _, id := range order {
+		if n, ok := notes[id]; ok {
+			acc[id].Notes = append(acc[id].Notes, n)
+		}
 		all.Results = append(all.Results, *acc[id])
 	}
 	all.Workers = n
